@@ -38,20 +38,20 @@ def build(tier):
         src += hgen.cond(name, "b0: int, b1: int, bs: int", [f"0 <= b0 < {nb} and 0 <= b1 < {nb}", "bs == 1" if q else "1 <= bs <= 2"], f"L.data_independent({verb!r}, b0, b1, bs)", sig="hb.KEY")
         conds += [Cond(name, "prop", T, group="byte-values"), Cond(name + "__twin", "twin", 60, group="byte-values")]
     # end to end: the real client's copy loops, get_stream (TYPE, EPSV, REST, command) and finish()
-    for kind in ("upload", "append", "download"):
+    for kind in ("upload", "append", "download", "download_read"):
         for off in (0, 2):
-            for oldlen in ((0, 3) if kind == "download" else (-1, 3)):
+            for oldlen in ((0, 3) if kind == "download" else ((5,) if kind == "download_read" else (-1, 3))):
                 name = f"e2e_{kind}_off{off}_old{oldlen if oldlen >= 0 else 'none'}"
                 params = "n: int, bs_srv: int, bs_cli: int, seg: int"
                 pre = [f"0 <= n <= {2 if q else 4}", "1 <= bs_srv <= 2 and 1 <= bs_cli <= 2", "0 <= seg <= 1"]
-                if kind == "download":
+                if kind in ("download", "download_read"):
                     pre.append("n == 0")
                 if q:
                     pre.append("bs_srv == 2")
                     pre.append("n != 1")
                 src += hgen.cond(name, params, pre, f"L.e2e({kind!r}, n, bs_srv, bs_cli, {off}, {oldlen}, seg)", sig="hb.KEY")
                 conds += [Cond(name, "prop", T + 100, group="e2e"), Cond(name + "__twin", "twin", 90, group="e2e")]
-    src += "\nfor _v in ('stor', 'appe', 'retr'):\n    L.transfer(_v, 3, 2, 2, 3, 1, 1, 1); L.data_independent(_v, 1, 2, 2)\nfor _k in ('upload', 'append', 'download'):\n    L.e2e(_k, 3, 2, 2, 2, 3, 1)\n"
+    src += "\nfor _v in ('stor', 'appe', 'retr'):\n    L.transfer(_v, 3, 2, 2, 3, 1, 1, 1); L.data_independent(_v, 1, 2, 2)\nfor _k in ('upload', 'append', 'download', 'download_read'):\n    L.e2e(_k, 3, 2, 2, 2, 3, 1)\n"
     S, C = aioftp.Server, aioftp.Client
     return Spec(
         pid="C01", source=src, conds=conds,
@@ -62,7 +62,7 @@ def build(tier):
             "server side (real dispatcher, scripted data socket)": f"payload length 0..{nmax}, server block size 1..{bsmax}, restart offset in {offs} (issued by a real REST command), old file absent or of length {olds[1:]}, "
                                                                    f"network segmentation point 0..n, the first {'one' if q else 'two'} short reads of the data socket of symbolic size 1..block; all-distinct byte pattern",
             "byte values": f"2 payload / content bytes over {L.SPECIAL} (NUL, LF, CR, IAC, SUB, DEL, ...): Mode A, io.BytesIO realises symbolic bytes",
-            "end to end (real Client over SimNet)": f"upload_stream / append_stream / download_stream, payload 0..{2 if q else 4}, client and server block sizes 1..2, offset in (0, 2), old file absent / 3 bytes, network delivering whole writes or single bytes",
+            "end to end (real Client over SimNet)": f"upload_stream / append_stream / download_stream (drained by iter_by_block, by read() to end of stream, and by read(n) until empty), payload 0..{2 if q else 4}, client and server block sizes 1..2, offset in (0, 2), old file absent / 3 bytes, network delivering whole writes or single bytes",
         },
         outside=["payloads longer than the bound, block sizes above 3 (the copy loops have no other size-dependent branch: stated, not proved)", "TLS, kernel socket buffering", "backends other than MemoryPathIO (C18)", "throttling on (C15)"],
         explanation=(
